@@ -289,7 +289,7 @@ def retry_case(case):
     if cls == "nonidem" and len(mine) > 1:
         v("non-idempotent-command-transmitted-twice", **info)
     for a in mine:
-        if a["t"] - t0 >= L - 1e-9 and case["k"] == "api":
+        if a["t"] >= t0 + L and case["k"] == "api":
             v("attempt-at-or-after-expiry", **info)
     if fault[0] in "wk":
         k = 1 if fault[0] == "w" else int(fault[1])
